@@ -108,3 +108,15 @@ Example C03_ex_spills :
 Proof.
   split; [|vm_compute; reflexivity]. vm_compute. intro H. apply H. reflexivity.
 Qed.
+
+(* how much of C03_inside's slack is real: the walls give way outward only, by
+   slackL = minP - x_L and slackR = x_R - maxP, both at most delta; clamping the
+   solution by exactly these amounts gives the optimum inside the bounds
+   (coq/Props/C02.v: C02_hard_optimum, C02_distance_to_hard_optimum) *)
+From Labella Require Import Layout.HardBoundProofs.
+Theorem C03_walls_give_way : forall o its, its <> [] -> fits o (sorted_items its) ->
+  let s := sorted_items its in
+  (0 <= slackL o s <= delta o its) /\ (0 <= slackR o s <= delta o its) /\
+  Forall2 (fun x z => - slackR o s <= z - x <= slackL o s) (solve_layer_exact o its) (hard_clamp o s).
+Proof. exact C02_hard_close_lemma. Qed.
+Print Assumptions C03_walls_give_way.
